@@ -156,6 +156,13 @@ QDiv(x, y) == QMul(x, QInv(y))
 QLeq(x, y) == QSub(y, x)[1] >= 0
 RECURSIVE QSumSeq(_)
 QSumSeq(s) == IF s = <<>> THEN QInt(0) ELSE QAdd(Head(s), QSumSeq(Tail(s)))
+\* accumulating sums (the accumulator is looked at on every level, see Seen below: no nested thunks)
+RECURSIVE QSumRun(_, _, _, _)
+QSumRun(acc, s, k, n) == IF acc[2] <= 0 \/ k > n THEN acc ELSE QSumRun(QAdd(acc, s[k]), s, k + 1, n)
+QSumAll(s) == LET t == SubSeq(s, 1, Len(s)) IN QSumRun(QInt(0), t, 1, Len(t))
+RECURSIVE ISumRun(_, _, _, _)
+ISumRun(acc, s, k, n) == IF acc < -2147483647 \/ k > n THEN acc ELSE ISumRun(acc + s[k], s, k + 1, n)
+ISumAll(s) == LET t == SubSeq(s, 1, Len(s)) IN ISumRun(0, t, 1, Len(t))
 RECURSIVE QPow(_, _)
 QPow(x, k) == IF k = 0 THEN QInt(1) ELSE QMul(x, QPow(x, k - 1))
 \* rational -> fixed point (|n| < 2^30, d <= 2^16)
@@ -212,13 +219,13 @@ SimplexIntegralFx(vs, alpha) ==
   FxMulSmall(FxRat(SimplexMonoSum(vs, alpha), Fact(SumSeq(alpha) + Len(vs) - 1)), SimplexJac(vs))
 RECURSIVE FxSumRun(_, _, _)
 FxSumRun(acc, s, k) == IF ~Seen(acc) \/ k > Len(s) THEN acc ELSE FxSumRun(FxAdd(acc, s[k]), s, k + 1)
-FxSumAll(s) == FxSumRun(FxZero, s, 1)
+FxSumAll(s) == FxSumRun(FxZero, SubSeq(s, 1, Len(s)), 1)
 \* over a union of simplices
 SimplicesIntegralFx(S, alpha) == FxSumAll([s \in DOMAIN S |-> SimplexIntegralFx(S[s], alpha)])
 CellIntegralFx(kind, vs, alpha)  == SimplicesIntegralFx(CellSimplices(kind, vs), alpha)
 FacetIntegralFx(vs, alpha)       == SimplicesIntegralFx(FacetSimplices(vs), alpha)
 \* k! * measure of a union of simplices (integer)
-SimplicesJac(S) == SumSeq([s \in DOMAIN S |-> SimplexJac(S[s])])
+SimplicesJac(S) == ISumAll([s \in DOMAIN S |-> SimplexJac(S[s])])
 
 \* x / scale^n for a power-of-two scale (scale^n <= 2^16 on the universes)
 Unscale(x, scale, n) == IF scale = 1 THEN x ELSE FxDivSmall(x, scale ^ n)
@@ -254,7 +261,7 @@ PDeriv(p, i) == SelectSeq([t \in DOMAIN p |-> PTerm(p[t][1] * p[t][2][i], [p[t][
                           LAMBDA t : t[1] # 0)
 \* int over the reference simplex of dimension d = m - 1 :  beta! / (|beta| + d)!
 PIntegral(p) ==
-  QSumSeq([t \in DOMAIN p |-> Q(p[t][1] * ProdFact(p[t][2]), Fact(SumSeq(p[t][2]) + Len(p[t][2]) - 1))])
+  QSumAll([t \in DOMAIN p |-> Q(p[t][1] * ProdFact(p[t][2]), Fact(SumSeq(p[t][2]) + Len(p[t][2]) - 1))])
 
 \* Silvester: the Lagrange function of degree deg at the node with barycentric numerators node (sum = deg) is
 \*    prod_i prod_{r < node_i} (deg * lambda_i - r) / (r + 1)
@@ -294,7 +301,7 @@ LocalLoadFx(vs, deg, ni)     == FxMulSmall(FxOfQ(RefLoad(deg, ni)), Abs(SimplexD
 \* sum_{r,s} (g_r . g_s) int d_r phi_i d_s phi_j / |det|
 LocalLaplaceQ(vs, deg, ni, nj) ==
   LET g == DetGradLambda(vs) m == Len(vs) IN
-  QMul(QSumSeq(FlattenSeq([r \in 1..m |-> [s \in 1..m |->
+  QMul(QSumAll(FlattenSeq([r \in 1..m |-> [s \in 1..m |->
          QMul(QInt(VDot(g[r], g[s])), RefGrad(deg, ni, nj, r, s))]])), Q(1, Abs(SimplexDet(vs))))
 LocalLaplaceFx(vs, deg, ni, nj) == FxOfQ(LocalLaplaceQ(vs, deg, ni, nj))
 ==============================================================================
